@@ -578,6 +578,14 @@ func (g *Gen) GenFunc(fn *ssa.Function, spec *FuncSpec) (vc *FnVC, err error) {
 			}
 		}
 	}
+	if v.spec.Opts["splitfirst"] == "all" {
+		// try the case split (function-level cases or merge-edge cases) before the whole query
+		for _, o := range v.obls {
+			if len(o.Split) > 1 {
+				o.SplitFirst = true
+			}
+		}
+	}
 	// every loop must have been reached or be dead
 	return v, nil
 }
@@ -641,6 +649,21 @@ func (g *Gen) preamble(v *FnVC) string {
 	return b.String()
 }
 
+// axiomatized: a non-recursive spec function listed in `opt axiomatize=f,g` is kept as an
+// uninterpreted symbol with its definition as a triggered axiom (instead of being expanded
+// like a macro), so that it can occur in patterns and nonlinear bodies stay out of quantifiers.
+func (g *Gen) axiomatized(v *FnVC, f *SpecFunc) bool {
+	if v == nil || v.spec == nil || v.spec.Opts["axiomatize"] == "" {
+		return false
+	}
+	for _, n := range strings.Split(v.spec.Opts["axiomatize"], ",") {
+		if strings.TrimSpace(n) == f.Name {
+			return true
+		}
+	}
+	return false
+}
+
 // specFuncDefs emits the recursive / opaque spec functions visible to v.
 func (g *Gen) specFuncDefs(v *FnVC) string {
 	var fs []*SpecFunc
@@ -653,7 +676,7 @@ func (g *Gen) specFuncDefs(v *FnVC) string {
 		sort.Strings(names)
 		for _, n := range names {
 			f := m[n]
-			if (f.Rec || f.Opaque) && !seen[n] {
+			if (f.Rec || f.Opaque || g.axiomatized(v, f)) && !seen[n] {
 				seen[n] = true
 				fs = append(fs, f)
 			}
